@@ -31,6 +31,8 @@ INPUTS = {
                           "info": {"a": 3, "b": "z"}, "extra": {"c": 2.5, "info": {"a": 4, "b": "w"}}}],
     # the same without recursion: a grandchild shared by its parent and its grandparent
     "shared_by_parent_and_grandparent": [{"info": {"a": 3, "b": "z"}, "extra": {"c": 2.5, "info": {"a": 4, "b": "w"}, "more": {"d": 1, "info": {"a": 5, "b": "v"}}}}],
+    # keys without any word character: nothing is left after sanitising (the pinned tree fails on them -- the same way in every process)
+    "punctuation_only_keys": [{"$": 1, "%": {"a": 1}, "": "x", "ok": 2}],
     "literals": [{"kind": "b", "tags": ["y", "x"]}, {"kind": "a", "tags": ["z"]}, {"kind": "c", "tags": []}],
 }
 
@@ -126,7 +128,7 @@ def scen_seeds_literals(ch, params, out):
     import os
     import subprocess
     inp = ch.choose("input", ["literals", "names", "merge3", "case_literals", "equal_models", "many_refs", "recursive_shared",
-                              "shared_by_parent_and_grandparent"], shard=False)
+                              "shared_by_parent_and_grandparent", "punctuation_only_keys"], shard=False)
     seed = 1 + ch.pick("seed", params.get("seeds", 6))
     outs = []
     for s in (0, seed):
@@ -162,12 +164,16 @@ def scen_seeds_cli(ch, params, out):
         else:
             args = ["-m", "Item", os.path.join(d, "item0.json"), "-m", "Item", os.path.join(d, "item1.json"), "-m", "Other", os.path.join(d, "item3.json")]
         outs = []
-        for s_ in (0, seed):
+        # the same command several times per seed: a difference between two runs under the SAME seed (scheduling, timing) is a
+        # violation as well; a replay repeats more often, because such a difference need not show on every run
+        repeats = 2 if ch.symbolic else 8
+        for s_ in [0, seed] * repeats:
             env = dict(os.environ)
             env["PYTHONHASHSEED"] = str(s_)
             p = subprocess.run(["/venv/bin/python", "-m", "json_to_models"] + args + ["-f", fw], capture_output=True, text=True, env=env, timeout=120, cwd=d)
             body = p.stdout.split('\n"""\n', 1)[-1] if p.returncode == 0 else "ERROR " + p.stderr[-300:]
             outs.append(body)
+        outs = [outs[0]] + ([o for o in outs if o != outs[0]][:1] or [outs[0]])
     finally:
         import shutil
         shutil.rmtree(d, ignore_errors=True)
@@ -175,7 +181,7 @@ def scen_seeds_cli(ch, params, out):
     if plan == "glob":
         out.checked += 1      # a glob's file order is unspecified (C16); nothing is claimed about it here
         return
-    out.check(outs[0] == outs[1], "output_depends_on_hash_seed", lambda: f"{plan} [{fw}]: PYTHONHASHSEED=0 vs {seed}:\n{outs[0]}\n---\n{outs[1]}",
+    out.check(outs[0] == outs[1], "output_depends_on_hash_seed", lambda: f"{plan} [{fw}]: runs of the same command under PYTHONHASHSEED=0 / {seed} differ:\n{outs[0]}\n---\n{outs[1]}",
               "output_depends_on_hash_seed")
 
 
